@@ -451,7 +451,33 @@ func shrink(t *Node, class string, budget int) *Node {
 				}
 			}
 		}
-		// try to hoist: replace a frame by a plain successful CALL end / drop value
+		// hoist: splice a live child's items into its parent (drops one frame)
+		for _, n := range nodes {
+			for i := len(n.Items) - 1; i >= 0; i-- {
+				if budget <= 0 {
+					return cur
+				}
+				if cur.find(n.ID) != n {
+					break
+				}
+				ch := n.Items[i].Child
+				if ch == nil || isDead(ch) || isDead(n) {
+					continue
+				}
+				saved := n.Items
+				ni := append([]Item{}, saved[:i]...)
+				ni = append(ni, ch.Items...)
+				ni = append(ni, saved[i+1:]...)
+				n.Items = ni
+				budget--
+				if _, dead := pruneTree(cur); len(dead) > 0 && classGroup(comparePair(cur).D.Class) == classGroup(class) {
+					changed = true
+				} else {
+					n.Items = saved
+				}
+			}
+		}
+		// drop values
 		for _, n := range nodes {
 			if budget <= 0 {
 				return cur
